@@ -91,6 +91,21 @@ Notation holds := (holds C).
 Notation hinit := (hinit C cempty).
 Notation step_ok := (hstep_ok gt C cget cadd Hlossy cempty Hempty).
 
+(** the invariant, spelled out *)
+Theorem hinv_unfold : forall st : hstate,
+  HInv st <->
+  (BddOK (h_s C st) /\
+   QCacheOK cget (hreg_fn (h_reg C st)) (h_s C st) (h_c C st) /\
+   (forall id pairs, In (id, pairs) (h_reg C st) ->
+      NoDup (map fst pairs) /\
+      forall v r, In (v, r) pairs -> v < nlevels (h_s C st) /\ ref_ok (h_s C st) r) /\
+   (forall id pairs, In (id, pairs) (h_reg C st) -> (id < h_next C st)%N)).
+Proof.
+  intros st. split.
+  - intros [A B D F]. auto.
+  - intros [A [B [D F]]]. constructor; assumption.
+Qed.
+
 Theorem hinit_inv : forall n, HInv (hinit n).
 Proof.
   intros n. constructor; simpl.
